@@ -205,7 +205,7 @@ func main() {
 					h, e2 := ra.Head()
 					err = e2
 					if e2 == nil {
-						_, err = ra.CreateTag("t1", h.Hash(), nil)
+						_, err = ra.CreateTag("t"+string(rune('0'+i)), h.Hash(), nil)
 					}
 				}
 				if err != nil {
